@@ -101,7 +101,21 @@ func c39Numbers(d *keygen.LocalPreParams) []*big.Int {
 	return append(out, d.NTildei, d.H1i, d.H2i, d.Alpha, d.Beta, d.P, d.Q)
 }
 
-// c39SameData: which fixture (index) does the data equal completely? -1 if none.
+// c39Shape renders which of the ten numbers are present (bit lengths).
+func c39Shape(d *keygen.LocalPreParams) string {
+	names := []string{"N", "lambdaN", "phiN", "NTilde", "h1", "h2", "alpha", "beta", "p", "q"}
+	var sb strings.Builder
+	for i, n := range c39Numbers(d) {
+		if n == nil {
+			fmt.Fprintf(&sb, "%s=nil ", names[i])
+		} else {
+			fmt.Fprintf(&sb, "%s=%dbit ", names[i], n.BitLen())
+		}
+	}
+	return sb.String()
+}
+
+// c39WhichFixture: which fixture (index) does the data equal completely? -1 if none.
 func c39WhichFixture(fx []*keygen.LocalPreParams, d *keygen.LocalPreParams) int {
 	got := c39Numbers(d)
 	for i, f := range fx {
@@ -208,7 +222,7 @@ func TestVerif_C39_StorageRoundTrip(t *testing.T) {
 				which := c39WhichFixture(fx, p.Data.data)
 				if which < 0 {
 					t.Logf("history: %s", strings.Join(tr, " "))
-					t.Logf("record %s: numbers %v", p.ID, c39Numbers(p.Data.data))
+					t.Logf("record %s: %s", p.ID, c39Shape(p.Data.data))
 					t.Fatalf("ReadAll returned an incomplete or altered pre-parameter set (a parameter that was never generated) [finding-key=D11-incomplete-preparams-record]")
 				}
 				var rec *c39Record
